@@ -472,7 +472,20 @@ where
     usize: AsPrimitive<F>,
 {
     let range = probabilities.shape()[1];
-    let probabilities = probabilities.as_slice()?.chunks_exact(range);
+    // `as_slice` also succeeds for Fortran-ordered (or otherwise non-standard but contiguous)
+    // arrays, for which it returns the elements in *memory* order rather than in logical
+    // (row-major) order. Splitting such a slice into chunks would silently mix up the
+    // probabilities of different symbols, so we copy these arrays into standard layout first.
+    let standard_layout;
+    let probabilities = if probabilities.is_c_contiguous() {
+        probabilities.as_slice()?
+    } else {
+        standard_layout = probabilities.as_array().as_standard_layout().into_owned();
+        standard_layout
+            .as_slice()
+            .expect("array in standard layout is contiguous")
+    };
+    let probabilities = probabilities.chunks_exact(range);
     if reverse {
         parameterize_categorical_with_float_type(probabilities.rev(), perfect, callback)
     } else {
